@@ -58,6 +58,8 @@ type c04Case struct {
 	// opts: flag mixture through values.Options.MergeValues; parse: one strvals entry point
 	Opts  *c04Opts  `json:"opts,omitempty"`
 	Parse *c04Parse `json:"parse,omitempty"`
+	// upgrade: install + upgrade with a reuse flag (caller's map and chart afterwards)
+	Upgrade *c04Upgrade `json:"upgrade,omitempty"`
 	Tag   string    `json:"tag,omitempty"` // generator stream, for the distribution table
 }
 
@@ -76,7 +78,8 @@ func (*c04) Rule() string {
 	return "trees of depth <= 4 over a 5-key alphabet plus odd keys (dotted, spaced, non-ASCII, 'global'), with nulls, lists, " +
 		"empty tables and table<->scalar clashes between sources; kinds: files (2-4 -f files through Options.MergeValues), " +
 		"mergemaps, coalesce (chart trees up to 3 levels x user values through CoalesceValues/MergeValues/ToRenderValues), " +
-		"tables (CoalesceTables/MergeTables), opts (mixtures of -f/--set-json/--set/--set-string/--set-file/--set-literal through " +
+		"tables (CoalesceTables/MergeTables), upgrade (install + upgrade with --reuse-values/--reset-then-reuse-values through the real actions: " +
+		"recorded Config, caller's map and chart afterwards), opts (mixtures of -f/--set-json/--set/--set-string/--set-file/--set-literal through " +
 		"Options.MergeValues: a 'simple' stream of single path=value flags over a shared pool of paths, and a 'rich' stream of generated trees " +
 		"and grammar expressions), parse (ParseInto/ParseIntoString/ParseJSON/ParseLiteralInto/ParseIntoFile on a non-empty dest: grammar stream " +
 		"with escaped keys, indexes, brace lists, typed literals; hand-written edge cases; malformed stream over a 20-symbol alphabet); " +
@@ -125,6 +128,15 @@ func (*c04) Corpus() []any {
 			out = append(out, c04Case{Kind: "parse", Tag: "corpus-parse", Parse: &c04Parse{Fn: fn, S: w.s, Dest: vtree{"z": int64(1)},
 				Pairs: []c04Pair{{Path: w.path, Val: ""}}}})
 		}
+	}
+	// witnesses on the upgrade path: the caller's map (fixed in /repo) and the caller's chart
+	// (known finding K-C04-1) after an upgrade with a reuse flag
+	for _, reuse := range []bool{true, false} {
+		out = append(out, c04Case{Kind: "upgrade", Tag: "corpus-upgrade", Upgrade: &c04Upgrade{Reuse: reuse,
+			Chart1: &c04Chart{Name: "c", Values: vtree{"a": int64(1), "t": vtree{"x": "d1"}}},
+			Vals1:  vtree{"u": "keep", "t": vtree{"y": "user"}},
+			Chart2: &c04Chart{Name: "c", Values: vtree{"a": int64(2), "m": "new"}},
+			Vals2:  vtree{"t": vtree{"z": "now"}, "n": nil}}})
 	}
 	// all six families on one path, and each adjacent pair of families
 	p1, p2 := c04FilePath("from-file"), c04FilePath("F")
@@ -226,6 +238,8 @@ func c04GenChart(r *rand.Rand, name string, levels int, base vtree) *c04Chart {
 func (*c04) Generate(r *rand.Rand, _ int) any {
 	base := vtGenMap(r, 3, 2+r.Intn(4))
 	switch k := r.Intn(40); {
+	case k < 2:
+		return c04GenUpgrade(r, base)
 	case k < 10:
 		return c04GenOpts(r, base)
 	case k < 20:
@@ -353,6 +367,11 @@ func (*c04) Decode(raw json.RawMessage) (any, error) {
 			c.Opts.Assign[i].Val = vtNorm(c.Opts.Assign[i].Val)
 		}
 	}
+	if c.Upgrade != nil {
+		c.Upgrade.Vals1, c.Upgrade.Vals2 = c04NormMap(c.Upgrade.Vals1), c04NormMap(c.Upgrade.Vals2)
+		c04NormChart(c.Upgrade.Chart1)
+		c04NormChart(c.Upgrade.Chart2)
+	}
 	if c.Parse != nil {
 		c.Parse.Dest = c04NormMap(c.Parse.Dest)
 		for i := range c.Parse.Pairs {
@@ -423,6 +442,8 @@ func (*c04) Execute(ci any) (res any) {
 		} else {
 			obs.Out = m
 		}
+	case "upgrade":
+		c04ExecUpgrade(c.Upgrade, &obs)
 	case "opts":
 		c04ExecOpts(c.Opts, &obs)
 	case "parse":
@@ -532,6 +553,8 @@ func (*c04) CoqCase(ci, oi any) string {
 			fs[i] = hx.CoqValMap(f)
 		}
 		return fmt.Sprintf("CFiles %s %s", hx.CoqList(fs), c04CoqRes(obs))
+	case "upgrade":
+		return c04CoqUpgrade(c.Upgrade, c04CoqRes(obs))
 	case "opts":
 		return fmt.Sprintf("COpts %s %s", c04CoqOpts(c.Opts), c04CoqRes(obs))
 	case "parse":
@@ -568,6 +591,8 @@ func c04Sources(c c04Case) []vtree {
 		return []vtree{c.A, c.B}
 	case "coalesce":
 		return []vtree{c.Chart.Values, c.Vals}
+	case "upgrade":
+		return []vtree{c.Upgrade.Vals1, c.Upgrade.Vals2}
 	}
 	return nil
 }
